@@ -370,9 +370,23 @@ def run_layout(R, tonic):
     with R.guard('C01.R7'):
         dc = tonic.body('decode::StreamingInner::decode_chunk')
         views = dc.calls(pat='DecodeBuf', name='new')
+        # blocks that put the decoder into ReadBody (self.state = State::ReadBody{..})
+        sets_rb = {bb_ for bb_, i_, st_ in mirlib.assignments(dc, lambda st_: mirlib.place_fields(st_['p'])[-1:] == ['state'])
+                   if (mirlib.rvalue_variant(dc, dc.blocks[bb_]['stmts'][i_]['rv']) or (None, None))[1] == 'ReadBody'}
+        rb_discr = [v_['discr'] for v_ in tonic.adt('codec::decode::State')['variants'] if v_['name'] == 'ReadBody'][0]
         for vb, vt in views:
             gs = dc.edge_guards(vb)
-            okp = any(show(tm).startswith('discr(') and 'state' in show(tm) and vals == [1] for s, vals, tm in gs)
+            # on every path to the view the decoder is in ReadBody: the state was matched as ReadBody, or was just set to it
+            okp = True
+            npaths = 0
+            meta_ = {}
+            for cons_, path_ in mirlib.path_rows(dc, stop={vb}, relevant=lambda sub_: sub_.startswith('discr(') and sub_.rstrip(')').endswith('.state'), meta=meta_, limit=200000):
+                if path_[-1] != vb:
+                    continue
+                npaths += 1
+                matched = any(op_ == '==' and v_ == rb_discr for sub_, op_, v_ in cons_)
+                okp = okp and (matched or any(x_ in sets_rb for x_ in path_))
+            okp = okp and npaths >= 1
             okl = any(tm[0] == 'bin' and tm[1] == 'Lt' and is_call(strip_refs(tm[2]), name='remaining') and term_contains(tm[3], lambda x: x and x[0] == 'variant' and x[2] == 'ReadBody') and vals == [0] for s, vals, tm in gs)
             R.check(okp and okl, 'C01.R7', 'view-needs-readbody-and-full-message', site(dc, vb), 'in ReadBody: %r; behind false edge of remaining() < len: %r' % (okp, okl))
         sadt = tonic.adt('codec::decode::State')
